@@ -1,0 +1,17 @@
+// SPDX-FileCopyrightText: 2020 - 2025 SAP SE
+//
+// SPDX-License-Identifier: Apache-2.0
+
+//go:build verif
+
+package tds
+
+// This file is only compiled with the build tag "verif". It gives the
+// verification harness access to the unexported column list of
+// CurDeclarePackage. It adds code only.
+
+// VerifColumns returns the column list of the package.
+func (pkg *CurDeclarePackage) VerifColumns() []string { return pkg.columns }
+
+// VerifSetColumns sets the column list of the package.
+func (pkg *CurDeclarePackage) VerifSetColumns(columns []string) { pkg.columns = columns }
